@@ -167,7 +167,11 @@ def case_sym(ctx, inp):
     memo = {}
     d = build_sym(prog, memo)
     eager = build_sym(prog, {}, eager=True)
-    real = d.compute(scheduler=inp.get("scheduler", "sync"))
+    try:
+        real = d.compute(scheduler=inp.get("scheduler", "sync"))
+    except Exception as e:
+        ctx.fail(f"computing a delayed program raised {type(e).__name__}: {str(e)[:150]}", observed=type(e).__name__, expected=eager)
+        return
     if real != eager:
         ctx.fail("delayed program computes a different value than the same program run eagerly",
                  observed=real, expected=eager)
@@ -397,8 +401,13 @@ def _plain(x):
 def case_surface(ctx, inp):
     idx, a, b, lst = inp["idx"], inp["a"], inp["b"], inp["lst"]
     want = surface_program(idx, a, b, lst, lazy=False)
-    d = surface_program(idx, a, b, lst, lazy=True)
-    got = d.compute(scheduler=inp.get("scheduler", "sync"))
+    try:
+        d = surface_program(idx, a, b, lst, lazy=True)
+        got = d.compute(scheduler=inp.get("scheduler", "sync"))
+    except Exception as e:
+        ctx.fail(f"a delayed program raised {type(e).__name__}: {str(e)[:150]}", observed=type(e).__name__,
+                 expected=repr(_plain(want))[:300])
+        return
     if _plain(got) != _plain(want):
         ctx.fail("delayed program computes a different value than the same program run eagerly",
                  sig=None, observed=repr(_plain(got))[:300], expected=repr(_plain(want))[:300])
@@ -415,6 +424,7 @@ def case_nout(ctx, inp):
     parts = list(res)
     if len(parts) != 3:
         ctx.fail("a Delayed with nout=3 does not iterate into 3 parts", observed=len(parts))
+        return
     vals = dask.compute(*parts, scheduler="sync")
     want = _pairs(n, m)
     if tuple(vals) != tuple(want):
